@@ -276,19 +276,24 @@ pub fn install_panic_hook() {
             .unwrap_or_default();
         let bt = std::backtrace::Backtrace::force_capture().to_string();
         let mut frames = Vec::new();
+        let mut last_name = String::new();
         for line in bt.lines() {
             let line = line.trim();
-            // frame lines look like "12: rbx_binary::chunk::Chunk::decode"
-            if let Some((_, name)) = line.split_once(": ") {
-                if name.starts_with("rbx_")
-                    || name.starts_with("<rbx_")
-                    || name.starts_with("xml::")
-                    || name.starts_with("<xml::")
-                {
-                    if !name.starts_with("rbxverif") {
-                        frames.push(strip_hash(name));
+            if let Some(loc) = line.strip_prefix("at ") {
+                // "at /repo/rbx_binary/src/chunk.rs:39:17"
+                if let Some(rest) = loc.strip_prefix("/repo/") {
+                    let file = rest.split(':').next().unwrap_or(rest);
+                    let mut name = strip_hash(&last_name);
+                    if let Some(i) = name.find('<') {
+                        if i > 0 {
+                            name.truncate(i);
+                        }
                     }
+                    let name = name.rsplit("::").next().unwrap_or("").to_string();
+                    frames.push(format!("{file}::{name}"));
                 }
+            } else if let Some((_, name)) = line.split_once(": ") {
+                last_name = name.to_string();
             }
         }
         if HOOK_VERBOSE.load(Ordering::Relaxed) {
